@@ -76,6 +76,9 @@ def _make(cls, model, tag, n):
     return cls(f"a{n}", model, tag=tag)
 
 
+PLUGINS = []
+
+
 def _run(case, model):
     classes = list(BASES)
     parents = {0: None, 1: 0, 2: 1}
@@ -85,7 +88,11 @@ def _run(case, model):
     for i, spec in enumerate(case["classes"][:7]):
         spec = int(spec)
         b = spec % len(classes) if spec >= 0 else (len(classes) - 1 if len(classes) > 3 else 0)
-        classes.append(type(f"K{i}", (classes[b],), body if body is not None else {}))
+        ns = body if body is not None else {}
+        if case.get("hook") and i == 0:
+            # a plug-in style base class: its __init_subclass__ registers descendants and does not call super()
+            ns = dict(ns, __init_subclass__=classmethod(lambda cls, **kw: PLUGINS.append(cls.__name__)))
+        classes.append(type(f"K{i}", (classes[b],), ns))
         parents[len(classes) - 1] = b
     nfresh = len(classes) - 3
     if nfresh == 0:
@@ -273,6 +280,6 @@ def strategy(tier):
     )
     return with_done(st.fixed_dictionaries({
         "classes": st.lists(wone_of(st.just(-1), st.just(-1), st.integers(0, 9)), min_size=2, max_size=7),
-        "shared": st.integers(0, 3).map(lambda v: v == 0), "one_body": st.sampled_from([False, False, True]),
+        "shared": st.integers(0, 3).map(lambda v: v == 0), "one_body": st.sampled_from([False, False, True]), "hook": st.sampled_from([False, False, False, True]),
         "ops": wone_of(st.lists(ops, min_size=1, max_size=40), sized_lists(ops, 6, 40), sized_lists(ops, 6, 40)),
     }))
